@@ -300,7 +300,8 @@ def r7_delayed_send(ctx):
     f = ctx.anchor('des::net::runtime::ctx::buf_send_at')
     if not f:
         return
-    pushes = [s for s in f.calls() if s.name == 'std::vec::Vec::push']
+    # buffering the event: Vec::push on the event buffer, or the buffer's EventSink::add (which pushes: checked by C03.R3)
+    pushes = [s for s in f.calls() if s.name == 'std::vec::Vec::push' or (s.callee == 'des::runtime::event::EventSink::add' and s.argtys and 'std::vec::Vec<' in s.argtys[0])]
     walks = f.calls_to('des::net::runtime::events::MessageExitingConnection::handle_with_sink')
     if not (ctx.floor('delayed push in buf_send_at', len(pushes), 1) and ctx.floor('inline walk in buf_send_at', len(walks), 1)):
         return
@@ -311,7 +312,7 @@ def r7_delayed_send(ctx):
         return None
     ctx.check(cmpnow(pushes[0].b) == 'gt', 'delayed-iff-future', 'a send is buffered as a delayed event iff send_time > now', pushes[0].where(), cmpnow(pushes[0].b))
     ctx.check(cmpnow(walks[0].b) == 'le', 'immediate-iff-now', 'otherwise the gate walk happens immediately', walks[0].where(), cmpnow(walks[0].b))
-    tm = peel(f.expr_operand(pushes[0].args[1], pushes[0].b, 'T'))
+    tm = peel(f.expr_operand(pushes[0].args[-1] if pushes[0].name != 'std::vec::Vec::push' else pushes[0].args[1], pushes[0].b, 'T'))
     ctx.check(any(x == ('arg', 2 + 1, 'send_time') or (x[0] == 'arg' and x[2] == 'send_time') for x in walk(tm)), 'delayed-at-send-time', 'the delayed event is scheduled at send_time', pushes[0].where())
 
 
